@@ -1,0 +1,31 @@
+//go:build verif
+
+package parser
+
+// Machine-checked contracts for package parser (comment-only; see klog/contracts_verif.go).
+
+// parse: never panics; returns either a record and no errors, or no record and at least one error.
+// Every error it creates satisfies the position contract of txt.NewError (property C10): the checks
+// are the pre(NewError) obligations at each call site.
+//
+// Loop invariant shared by all loops: the captured variable `lines` is always a suffix of the block's
+// significant lines, so `nr(lines)` is the index of lines[0] inside the block.
+
+//@ func parse
+//@ requires typeis(block, *txt.block)
+//@ ensures isnil(result0) == (len(result1) > 0)
+//@ loop 1 invariant initialLineOffset >= 0 && initialLineCount >= 1 && initialLineOffset + initialLineCount <= len(block.(*txt.block).lines)
+//@ loop 1 invariant len(lines) == initialLineCount - 2 - rangeindex && rangeindex >= -1
+//@ loop 1 invariant same(lines, block.(*txt.block).lines[initialLineOffset + initialLineCount - len(lines) : initialLineOffset + initialLineCount])
+//@ loop 1 invariant typeis(record, *klog.record) && typeis(block, *txt.block)
+//@ loop 2 invariant initialLineOffset >= 0 && initialLineCount >= 1 && initialLineOffset + initialLineCount <= len(block.(*txt.block).lines)
+//@ loop 2 invariant 0 <= len(lines) && len(lines) <= initialLineCount - 1
+//@ loop 2 invariant same(lines, block.(*txt.block).lines[initialLineOffset + initialLineCount - len(lines) : initialLineOffset + initialLineCount])
+//@ loop 2 invariant typeis(record, *klog.record) && typeis(block, *txt.block) && implies(len(lines) > 0, indentator != nil)
+//@ loop 2 decreases len(lines)
+
+//@ func parse$4
+//@ loop 1 invariant 0 <= len(lines) && len(lines) <= old(len(lines))
+//@ loop 1 invariant same(lines, block.(*txt.block).lines[initialLineOffset + initialLineCount - len(lines) : initialLineOffset + initialLineCount])
+//@ loop 1 invariant typeis(block, *txt.block) && indentator != nil
+//@ loop 1 decreases len(lines)
